@@ -93,6 +93,7 @@ def find_end_selector(crate, file_suffix):
 def rule_listview(crate, file_suffix="numbat/src/list.rs"):
     out = RuleOut("LISTVIEW", "the view window is adjusted with every change of the backing deque's length")
     n_sites = 0
+    n_dec = [0]
     sel = find_end_selector(crate, file_suffix)
     if sel is None:
         out.error("anchor missing: NumbatList::len does not compute `view.<end> - view.<start>`; cannot tell which component of the view is its end")
@@ -230,8 +231,41 @@ def rule_listview(crate, file_suffix="numbat/src/list.rs"):
                     visit(v, status, end_id)
 
         visit(b["body"], "maybe", None)
-    out.analysed = {"length_changing_sites": n_sites}
-    out.floor("length_changing_sites", n_sites, 4)
+        # ---- underflow: a view bound is decremented only under a comparison on that bound (`if *start == 0 {..} else
+        # { *start -= 1 }`); an unguarded decrement of an unsigned start index panics (or wraps) for a view at index 0
+        from errd import parent_map
+
+        pm = parent_map(b["body"])
+        bound_ids = set()
+        for n in walk(b["body"]):
+            if n.get("k") == "Let" and n.get("init") is not None and local_of(n["init"]) in view_ids:
+                for q in walk(n["pat"]):
+                    if q.get("k") == "Binding":
+                        bound_ids.add(q["id"])
+        for n in walk(b["body"]):
+            if n.get("k") != "AssignOp" or str(n.get("op")) not in ("-=", "Sub", "-"):
+                continue
+            tgt = local_of(n["l"])
+            if tgt not in bound_ids:
+                continue
+            f2, l2 = crate.loc(b, n)
+            guarded = False
+            cur = n
+            while id(cur) in pm:
+                p = pm[id(cur)]
+                if p.get("k") == "If":
+                    for c in walk(p["cond"]):
+                        if c.get("k") == "Binary" and str(c.get("op")) in ("==", "!=", ">", ">=", "<", "<=") and (local_of(c["l"]) == tgt or local_of(c["r"]) == tgt):
+                            guarded = True
+                cur = p
+            key = "%s:decrement:%s" % (short, [q for q in walk(b["body"]) if q.get("k") == "Binding" and q.get("id") == tgt][0].get("name", "?"))
+            n_dec[0] += 1
+            if guarded:
+                out.ok(key, f2, l2, "the decrement of the view bound is under a comparison on that bound")
+            else:
+                out.violation(key, f2, l2, "a bound of the view window is decremented without any test of its value: for a view that starts at index 0 (`tail` of a temporary followed by more `cons` than `tail`) the unsigned index underflows — panic in checked builds, out-of-bounds index otherwise")
+    out.analysed = {"length_changing_sites": n_sites, "guarded_decrements": n_dec[0]}
+    out.floor("length_changing_sites", n_sites, 2)
     return out
 
 
